@@ -310,6 +310,14 @@ def expand_ast(func_node, expr, depth=3):
     return ast.parse(expand(func_node, expr, depth), mode="eval").body
 
 
+def literal(func_node, expr):
+    """(True, value) when expr is a literal or a local name bound once to a literal; (False, None) otherwise."""
+    try:
+        return True, ast.literal_eval(expand(func_node, expr))
+    except (ValueError, SyntaxError, TypeError, MemoryError, RecursionError):
+        return False, None
+
+
 def reaching_values(func_node, cfg: CFG, use: Node, expr):
     """The expressions a use may evaluate to, with the branch conditions under which each is chosen.
 
